@@ -388,7 +388,7 @@ UNIT = {
     'trusted': [
         'shims: DiagnosticCode / FileId / TextRange / LuaLanguageLevel as opaque value types; lsp_types::DiagnosticSeverity transcribed (i32 newtype, ERROR=1..HINT=4); SmolStr, Regex opaque',
         'Emmyrc projected to `diagnostics` (the real EmmyrcDiagnostic, projected to disable/enables/globals/globals_regex/severity) and an uninterpreted get_language_level()',
-        'helpers with std contracts: vx_collect_code_set (r@ == v@.to_set() under the key model), vx_collect_smol_set (r@ == v@.map_values(sp_smol).to_set()), vx_compile_globs (no contract)',
+        'helpers with std contracts: vx_collect_code_set (r@ == v@.to_set() under the key model), vx_collect_smol_set (r@ == v@.map_values(sp_smol).to_set()), vx_compile_globs (no contract); vx_filter_collect_code_set (only used if a `.filter(F)` stage appears in a pipeline: result is a subset of the list and every dropped element has F == false)',
         'obeys_key_model::<DiagnosticCode>() (derived Hash/Eq on a field-less enum) is a precondition of LuaDiagnosticConfig::new; RandomState builds valid hashers (vstd axiom)',
         'hashbrown::{HashMap,HashSet} (fields of LuaDiagnosticConfig) -> std::collections (same API subset; order never relied on)',
         'doc-comment AST opaque: get_code_list / get_codes / get_name_text return uninterpreted values; get_codes (an iterator over the name-token children) is modelled by the Vec of the items it yields',
